@@ -42,10 +42,18 @@ type c36Stream struct {
 	srpc.Stream
 	ctx  context.Context
 	sent []*LookupRpcServiceResponse
+	// slowAt > 0: the slowAt-th Send blocks (a slow transport) until the harness opens the gate
+	slowAt int
+	nsend  int
+	gate   chan struct{}
 }
 
 func (s *c36Stream) Context() context.Context { return s.ctx }
 func (s *c36Stream) Send(m *LookupRpcServiceResponse) error {
+	s.nsend++
+	if s.nsend == s.slowAt {
+		<-s.gate
+	}
 	s.sent = append(s.sent, m)
 	return nil
 }
@@ -57,14 +65,14 @@ type c36Invoker struct{ srpc.Invoker }
 // carries Exists and Removed strictly alternating (starting with Exists) and ends in the state
 // "exists iff at least one value is present"; idle changes are reported once per change.
 func VerifC36Lookup() {
-	k := 3
+	k := 4
 	if rt.Tier() > 0 {
 		k = 5
 	}
 	rt.SchedBound(0, false)
 	b := &c36Bus{}
 	ctx, cancel := context.WithCancel(context.Background())
-	strm := &c36Stream{ctx: ctx}
+	strm := &c36Stream{ctx: ctx, gate: make(chan struct{}), slowAt: rt.Choose("slowSendAt", 3)}
 	srv := NewAccessRpcServiceServer(b, false, nil)
 	var retErr error
 	done := false
@@ -105,6 +113,8 @@ func VerifC36Lookup() {
 			rt.Quiesce()
 		}
 	}
+	rt.Quiesce()
+	close(strm.gate)
 	rt.Quiesce()
 	rt.Assert("the lookup is still running", !done)
 	exists := false
